@@ -76,6 +76,9 @@ pub struct Analysis {
   pub exec_stack: Vec<Tid>,
   /// Tasks scheduled in a bottom-up build and not yet executed when the session ended.
   pub pending: Vec<Tid>,
+  /// Tasks whose top-down validation had already met an inconsistent / erroneous dependency (so that validation must
+  /// stop and the task must be re-executed, replacing its record) and that had not started executing when the session ended.
+  pub incons_open: BTreeSet<Tid>,
 }
 
 #[derive(Clone, Debug)]
@@ -282,6 +285,7 @@ impl<'a> Runner<'a> {
         check_err_res: fault.check_err_res.iter().filter(|r| **r < prog.resources.len()).map(|r| prog.resources[*r]).collect(),
         read_err_at: fault.read_err_at,
         write_err_at: fault.write_err_at,
+        same_err_text: fault.same_err_text,
       };
     });
   }
@@ -375,7 +379,9 @@ impl<'a> Runner<'a> {
         AbortKind::InjectedCrash => { self.crashes_fired += 1; self.stats.hit("fault_crash_fired"); }
         AbortKind::TaskPanic => { if matches!(prog.class, Class::W | Class::V) { self.harness_error = Some(format!("class W program panicked: {}", abort.info.short())); } }
         AbortKind::Guard => {
-          self.viol(&["C07"], "unbounded-recursion", step, format!("execution depth / count guard fired: {}", abort.info.short()));
+          // After an earlier abort this is also C19's business: the instance must stay sound.
+          let props: &[&str] = if self.aborted_earlier { &["C07", "C19"] } else { &["C07"] };
+          self.viol(props, "unbounded-recursion", step, format!("execution depth / count guard fired: {}", abort.info.short()));
         }
         AbortKind::Internal => {
           let props: &[&str] = if self.aborted_earlier { &["C19"] } else { &["C20"] };
@@ -521,6 +527,26 @@ impl<'a> Runner<'a> {
         if eq != (a == b) { self.viol(&["C15"], "key-equality", 0, format!("resource keys {:?} and {:?} compare equal = {eq} as trait objects", a, b)); return; }
       }
     }
+    // Field-less key types: boxed (or promoted) values of zero-sized types all live at one dangling address, so any
+    // identity shortcut by address confuses different types.
+    {
+      #[derive(Clone, PartialEq, Eq, Hash, Debug)] struct Z1;
+      #[derive(Clone, PartialEq, Eq, Hash, Debug)] struct Z2;
+      let boxed: Vec<(u8, Box<dyn KeyObj>)> = vec![(1, Box::new(Z1)), (2, Box::new(Z2)), (1, Box::new(Z1)), (3, Box::new(())), (2, Box::new(Z2))];
+      for (ta, ka) in boxed.iter() {
+        for (tb, kb) in boxed.iter() {
+          let eq = ka.as_ref() == kb.as_ref();
+          if eq != (ta == tb) { self.viol(&["C15"], "key-equality", 0, format!("boxed field-less keys of types #{ta} and #{tb} compare equal = {eq} as trait objects")); return; }
+          if ta == tb && h(ka.as_ref()) != h(kb.as_ref()) { self.viol(&["C15"], "key-hash", 0, format!("equal field-less keys of type #{ta} hash differently")); return; }
+        }
+      }
+      let (l1, l2): (&dyn KeyObj, &dyn KeyObj) = (&Z1, &Z2);
+      if l1 == l2 || l1 != l1 { self.viol(&["C15"], "key-equality", 0, "field-less keys of different types compare equal through references".to_string()); return; }
+      // The same through a hash map keyed by boxed keys, as pie's store uses them.
+      let mut m: std::collections::HashMap<Box<dyn KeyObj>, u8> = std::collections::HashMap::new();
+      for (t, k) in boxed.iter() { m.entry(k.clone()).or_insert(*t); }
+      if m.len() != 3 || boxed.iter().any(|(t, k)| m.get(k) != Some(t)) { self.viol(&["C15"], "key-equality", 0, format!("a map keyed by boxed keys of 3 field-less types holds {} entries or returns another type's entry", m.len())); return; }
+    }
     self.stats.hit("identity_probes");
   }
 
@@ -647,10 +673,11 @@ impl<'a> Runner<'a> {
     let writes = |x: Tid, r: ResKey| self.ledger[x].as_ref().map(|e| e.deps.iter().any(|d| d.kind == DepKind::Write && d.target == Target::Res(r))).unwrap_or(false);
     let ntasks = prog.tasks.len();
     let mut cause: Option<String> = None;
+    let mut stale_owners: Vec<Tid> = vec![];
     match (&abort.kind, op, target) {
       (AbortKind::Overlap, OpK::Write | OpK::WriteVia, Target::Res(r)) => {
         if let Some(w) = (0..ntasks).find(|x| *x != t && writes(*x, r)) {
-          if !fresh(w) { cause = Some("overlap:stale-writer".into()); }
+          if !fresh(w) { cause = Some("overlap:stale-writer".into()); stale_owners.push(w); }
         } else {
           let own_prev = self.prev[t].as_ref().map(|e| e.deps.iter().any(|d| d.kind == DepKind::Write && d.target == Target::Res(r))).unwrap_or(false);
           let own_now = self.ledger[t].as_ref().map(|e| e.deps.iter().any(|d| d.kind == DepKind::Write && d.target == Target::Res(r))).unwrap_or(false);
@@ -669,6 +696,7 @@ impl<'a> Runner<'a> {
             if !fresh(x) {
               let reads_now = ri.map(|ri| clean.readers.get(&ri).map(|v| v.contains(&x)).unwrap_or(false)).unwrap_or(false);
               cause = Some(if reads_now { "hidden:stale-path".into() } else { "hidden:stale-reader".into() });
+              stale_owners.push(x);
             }
             break;
           }
@@ -677,7 +705,7 @@ impl<'a> Runner<'a> {
       (AbortKind::Hidden, OpK::Read, Target::Res(r)) => {
         if let Some(w) = (0..ntasks).find(|x| *x != t && writes(*x, r)) {
           if !ledger_path(&self.ledger, &none_old, t, w) {
-            if !fresh(w) { cause = Some("hidden:stale-writer".into()); }
+            if !fresh(w) { cause = Some("hidden:stale-writer".into()); stale_owners.push(w); }
             else {
               // The writer is current; the reader's path to it runs through tasks whose records are stale or partial.
               let ri = prog.res_index(r);
@@ -696,7 +724,7 @@ impl<'a> Runner<'a> {
           let mut stack = vec![u];
           while let Some(x) = stack.pop() {
             if !seen.insert(x) { continue; }
-            if !fresh(x) && !an.exec_stack.contains(&x) { stale_owner = true; }
+            if !fresh(x) && !an.exec_stack.contains(&x) { stale_owner = true; stale_owners.push(x); }
             if let Some(e) = self.ledger[x].as_ref() { for y in e.req_issued.iter() { stack.push(*y); } }
           }
           if stale_owner { cause = Some("cycle:stale-require".into()); }
@@ -714,6 +742,17 @@ impl<'a> Runner<'a> {
         let mut p2 = props.clone();
         p2.push("C04");
         self.viol(&p2, "abort-by-unordered-stale-record", step, format!("bottom-up build aborted on a stale record while task {q}, which the aborting task {t} (transitively) requires, was still scheduled and should have been executed first: {}", abort.info.short()));
+        return;
+      }
+    }
+    // A record of a task whose validation had already met an inconsistent dependency is not a "not yet validated"
+    // record: validation stops there and the task is re-executed (its record replaced) before anything else of it is
+    // looked at. An abort that such a record explains comes from validation having gone on.
+    if cause.is_some() {
+      if let Some(o) = stale_owners.iter().find(|o| an.incons_open.contains(o)) {
+        let mut p2 = props.clone();
+        p2.push("C02");
+        self.viol(&p2, "abort-by-record-of-task-found-inconsistent", step, format!("build aborted on a recorded dependency of task {o} although the validation of task {o} had already met an inconsistent dependency in this build (it has to be re-executed, which replaces its record, before its remaining dependencies are looked at): {}", abort.info.short()));
         return;
       }
     }
@@ -816,7 +855,7 @@ impl<'a> Runner<'a> {
             }
           }
           if exec_stack.contains(t) {
-            v(&["C07"], "cycle-reentered", format!("task {t} was entered again while it is still executing (stack {:?})", exec_stack));
+            v(if self.aborted_before { &["C07", "C19"] } else { &["C07"] }, "cycle-reentered", format!("task {t} was entered again while it is still executing (stack {:?})", exec_stack));
           }
           let prev_completed = self.ledger[*t].as_ref().map(|e| e.completed).unwrap_or(false);
           if prev_completed && !aborted_task(&self.ledger[*t]) {
@@ -1186,7 +1225,8 @@ impl<'a> Runner<'a> {
 
     // Tracker oracles.
     self.check_tracker(step, slice, aborted);
-    Analysis { executed, validated_ok, open_op: op_stack.last().map(|(t, op, target, _)| (*t, *op, *target)), exec_stack, pending: pending.keys().copied().collect() }
+    let incons_open: BTreeSet<Tid> = (0..ntasks).filter(|t| pass[*t].started && pass[*t].ended_incons && !executed.contains(t)).collect();
+    Analysis { executed, validated_ok, open_op: op_stack.last().map(|(t, op, target, _)| (*t, *op, *target)), exec_stack, pending: pending.keys().copied().collect(), incons_open }
   }
 
   fn check_tracker(&mut self, step: usize, slice: &[Ev], aborted: bool) {
